@@ -18,8 +18,15 @@ read that ends without error has delivered exactly the plaintext — holds for t
 reader (`tamper_repaired_complete`) and is false for the code as it is: negation witnesses
 `seekable_cut_behind_boundary_reads_short`, `seekable_header_plus_tag_reads_empty`,
 `seekable_appended_bytes_read_empty`, `sequential_cut_behind_boundary_reads_short`, `stored_stream_cut_to_nothing_reads_empty`.
+
+Variants: /repo now carries the seekable-reader repair (`fix := true`, 1943b77) and the envelope repair
+(`fixEof := true`, a20473e), so the seekable/envelope witnesses are theorems about the earlier variants. Still
+open: tink-go's sequential reader (`sequential_cut_behind_boundary_reads_short`; complete with the proposed
+byte-counting guard: `tamper_repaired_complete_sequential`) and one reader used on after an authentication
+error (`reader_used_after_failed_read_returns_zeros`; with the proposed repair:
+`reader_history_never_lies`, for every `Seek`/`Read` history on the reader as a state machine).
 -/
-import Pithos.Lemmas.TinkTamper
+import Pithos.Lemmas.TinkReader
 
 namespace Pithos.C16
 open Pithos.Codec Pithos.Tink
@@ -138,6 +145,19 @@ theorem tamper_repaired_complete_sequential (A : AEAD) (css key : Nat) (pre : By
   rw [segments_flatten css pt h56] at this
   exact this
 
+/-- **reader_history_never_lies.** One reader, any history of `Seek` and `Read` calls, any bytes presented as
+the stream — reads after failed reads included: with the repaired `loadSegment`
+(fixes/C16-invalidate-buffer-on-failed-load.patch) every `Read` hands out bytes of the plaintext at the
+position it was issued at. (For the code as it is: `reader_used_after_failed_read_returns_zeros`.) -/
+theorem reader_history_never_lies (A : AEAD) (hlen : ∀ k n m, (A.sealSeg k n m).length = m.length + tagLen)
+    (css key : Nat) (pre : Bytes) (pt : Bytes) (keyOf : Bytes → Nat) (h56 : 56 < css)
+    (ideal : IdealFor A key pre (segments css pt)) (fixEof : Bool) (ct : Bytes) (ops : List ROp) (p : Nat) (b : Bytes)
+    (h : (p, RRes.bytes b) ∈ rRun A keyOf fixEof true css ct ops {}) : IsPrefix b (pt.drop p) := by
+  have := rRun_sound A hlen css key pre (segments css pt) keyOf h56 (segments_layout css pt h56) ideal fixEof ct ops {}
+    (fun j hj => by cases hj) p b h
+  rw [segments_flatten css pt h56] at this
+  exact this
+
 /-- another part's ciphertext, or a part header whose DEK does not unwrap to this part's key: the reader
 derives a key under which nothing was sealed, and no segment opens -/
 theorem wrong_key_opens_nothing (A : AEAD) (key : Nat) (pre : Bytes) (segs : List Bytes) (ideal : IdealFor A key pre segs)
@@ -233,6 +253,23 @@ theorem seekable_appended_bytes_read_empty :
       (tinkStream toyAead 7 (List.replicate 32 1) (List.replicate 7 2) 64 [0x49] ++ List.replicate 15 0x5c) 0 = .ok [] ∧
     seekRead toyAead (fun _ => 7) true 64
       (tinkStream toyAead 7 (List.replicate 32 1) (List.replicate 7 2) 64 [0x49] ++ List.replicate 15 0x5c) 0 = .err [] := by
+  decide
+
+/-- **Witness 2c (seekable.go, one reader used on after an error).** 73 bytes = segments of 16, 56 and 1
+byte (segment size 72); the tag of the last segment is damaged. Read in segment 1, run into segment 2
+(error — correct), seek back into segment 1 and read again: the first byte is now ZERO, without error —
+`cipher.Open` cleared the start of the buffer that `segIndex` still attributes to segment 1. The repaired
+`loadSegment` re-reads segment 1. -/
+def wpt3 : Bytes := (List.range 73).map UInt8.ofNat
+def wct3 : Bytes := (tinkStream toyAead 7 (List.replicate 32 1) (List.replicate 7 2) 72 wpt3).dropLast ++ [0xff]
+def wops3 : List ROp := [.seek 16, .read 4, .seek 72, .read 4, .seek 16, .read 4]
+
+set_option maxRecDepth 20000 in
+theorem reader_used_after_failed_read_returns_zeros :
+    rRun toyAead (fun _ => 7) true false 72 wct3 wops3 {} =
+      [(16, .bytes [16, 17, 18, 19]), (72, .err), (16, .bytes [0, 17, 18, 19])] ∧
+    rRun toyAead (fun _ => 7) true true 72 wct3 wops3 {} =
+      [(16, .bytes [16, 17, 18, 19]), (72, .err), (16, .bytes [16, 17, 18, 19])] := by
   decide
 
 /-- **Witness 3 (tink-go's sequential reader).** The same cut, one byte behind the first slot: the reader
